@@ -469,8 +469,18 @@ class Interp(object):
         """Very small condition refinement: `x is None` / `x is not None` on plain names."""
         if isinstance(test, ast.UnaryOp) and isinstance(test.op, ast.Not):
             return self.refine(test.operand, state, not branch, fr)
+        if isinstance(test, ast.BoolOp) and isinstance(test.op, ast.And) and branch:
+            for v in test.values:
+                self.refine(v, state, True, fr)
+            return
         if isinstance(test, ast.Compare) and len(test.ops) == 1 and isinstance(test.left, ast.Name):
             op, right = test.ops[0], test.comparators[0]
+            if isinstance(right, ast.Constant) and right.value == 0 and not isinstance(right.value, bool):
+                cur = state.env.get(test.left.id)
+                if cur is not None and cur.kind == K_SCALAR:
+                    pos = (isinstance(op, ast.Gt) and branch) or (isinstance(op, ast.LtE) and not branch)
+                    if pos:
+                        state.env[test.left.id] = cur.replace(sign=S_POS)
             if isinstance(right, ast.Constant) and right.value is None and isinstance(op, (ast.Is, ast.IsNot)):
                 is_none = isinstance(op, ast.Is) == branch
                 cur = state.env.get(test.left.id)
@@ -823,6 +833,9 @@ class Interp(object):
     def mutate(self, fr, target, node, how, update, strong=False, index=None, value=None):
         """An in-place effect on the storage `target` refers to; updates every alias."""
         state = fr.state
+        if value is not None and target.kind == K_ARRAY and target.dtype in ("int", "bool") and \
+                self.api.as_num(value).dtype in ("real", "complex"):
+            self.emit("dtype-truncation", fr, node, target=target, value=value, how=how)
         toks = frozenset(t for t in target.origin if t not in ("lit", "?"))
         self.emit("mutation", fr, node, origins=target.origin, how=how, target=target, index=index, value=value)
         new_t = update(target)
